@@ -36,7 +36,7 @@ Proof. exact lines_delivered. Qed.
 
 (* 2. the full acceptor, for sessions in which every screen is always scheduled with the same arguments *)
 Theorem C06_lines_delivered_args_partial : forall fargs specs specl typed quit run_empty fuel acts,
-  (forall n, specs n = nth n specl default_spec) -> wf_session_gen true fargs specl quit acts = true ->
+  (forall n, specs n = nth n specl default_spec) -> wf_session_gen true false fargs specl quit acts = true ->
   sok chk_C06 typed (rev (trace (snd (app_run_all specs specl typed quit run_empty fuel acts)))) = true.
 Proof. exact lines_delivered_args. Qed.
 
@@ -44,6 +44,7 @@ Proof. exact lines_delivered_args. Qed.
    see C18_no_second_ready), and chk_C06 allows input() only for a request whose callback has not fired *)
 Theorem C06_no_duplicate_delivery : forall specs specl typed quit run_empty fuel acts,
   (forall n, specs n = nth n specl default_spec) -> wf_session specl quit acts = true ->
+  no_handler_objects specl acts = true ->
   sok chk_once typed (rev (trace (snd (app_run_all specs specl typed quit run_empty fuel acts)))) = true.
 Proof. exact answered_once. Qed.
 
@@ -76,7 +77,7 @@ Proof. exact delivered_lines_intact. Qed.
    one empty, the last the end of file: each line reaches the screen whose prompt was showing, with the
    arguments that screen was scheduled with; the full acceptor accepts it; and the monitor is not vacuous *)
 Example C06_example :
-  wf_session_gen true ex06_fargs ex06_specl None ex06_acts = true /\
+  wf_session_gen true false ex06_fargs ex06_specl None ex06_acts = true /\
   fst ex06_run = [ONormal; OBlocked] /\
   sok chk_C06 ex06_typed ex06_trace = true /\
   user_events T_INPUT ex06_trace =
